@@ -2,7 +2,7 @@
    monotonicity, and absence of fuel exhaustion. *)
 From Coq Require Import ZArith List Bool Arith Lia.
 From MV Require Import Base.Field Core.Op Core.Batch Core.Rpo Core.Mast Gen.ConstGen
-  Vm.State Vm.Step Vm.StepProps Vm.Exec.
+  Vm.State Vm.Pure Vm.Step Vm.StepProps Vm.Exec.
 Import ListNotations.
 Open Scope Z_scope.
 
@@ -161,9 +161,15 @@ Proof.
   - apply HF.
 Qed.
 
+Lemma lift_pure_no_oof s r e s1 : lift_pure s r = Err e s1 -> e <> OutOfFuel.
+Proof.
+  destruct r as [l|pe]; cbn; intros H; [discriminate|]. inversion H; subst.
+  destruct pe; discriminate.
+Qed.
+
 Lemma exec_op_no_oof o s e s1 : exec_op o s = Err e s1 -> e <> OutOfFuel.
 Proof.
-  intros H. destruct o; cbn [exec_op] in H;
+  intros H. destruct o; cbn [exec_op] in H; try (exact (lift_pure_no_oof _ _ _ _ H));
     repeat (first [ discriminate H | break_if H ]);
     inversion H; discriminate.
 Qed.
